@@ -36,7 +36,13 @@ class D(Driver):
 
     def cases(self, tier, seed):
         n = 32 if tier == "quick" else 480
-        return [("direct", seed, k, 600) for k in range(n)] + [("inpath", seed, k, 150) for k in range(n // 4)]
+        cs = [("direct", seed, k, 600) for k in range(n)] + [("inpath", seed, k, 150) for k in range(n // 4)]
+        from picomon.gen import corpus as _corpus
+
+        _nf = len(_corpus.files())
+        for _i in range(0, _nf, 12 if tier == "thorough" else 60):
+            cs.append(("pipeline", _i, min(_nf, _i + 12)))
+        return cs
 
     def setup_worker(self, tier, seed):
         arcmon.install()
@@ -101,10 +107,25 @@ class D(Driver):
         return feat, ((sx, sy), rx, ry, rot, large, sweep, (ex, ey))
 
     def run_case(self, case):
-        kind, seed, k, n = case
-        rng = random.Random(f"C12-{kind}-{seed}-{k}")
-        res = new_result()
-        if kind == "direct":
+        if case[0] == "pipeline":
+            from picomon import conv as _conv
+            from picomon.gen import corpus as _corpus
+
+            res = new_result()
+            arcmon.STATE["seen"] = set()
+            for _f in _corpus.files()[case[1]:case[2]]:
+                _conv.convert(open(_f).read())
+                res["evals"] += 1
+                bump(res["features"], "pipeline_documents")
+            arcmon.STATE["seen"] = None
+            kind = "pipeline"
+        else:
+            kind, seed, k, n = case
+            rng = random.Random(f"C12-{kind}-{seed}-{k}")
+            res = new_result()
+        if kind == "pipeline":
+            pass
+        elif kind == "direct":
             for _ in range(n):
                 feat, a = self._arc(rng)
                 bump(res["features"], feat)
